@@ -96,7 +96,7 @@ def operable(out: Outcome, rng, cls: str, params: dict, thorough: bool) -> None:
                 det.update(value=dets.typed(x, cast))
             except Exception as e:  # noqa: BLE001
                 rep = {"class": cls, "params": params, "stream": xs[:t]}
-                if cls == "ADWIN" and isinstance(e, ValueError) and "total" in str(e) and "KF-C19-1" in out.findings:
+                if cls == "ADWIN" and isinstance(e, ValueError) and "KF-C19-1" in out.findings and dets.model_raises_at_end("ADWIN", params, xs[:t]):
                     out.findings["KF-C19-1"].hits += 1
                 else:
                     out.violation(f"{cls}: accepted configuration {params} raises {type(e).__name__}: {e} at update {t} of an in-domain stream", rep)
